@@ -198,7 +198,7 @@ func accPaths(tier string, rng *rand.Rand) []Path {
 	three := samplePaths(pathsWith(sp, func(p Path) bool { return nSteps(p) == 3 }), tierN(tier, 100, 2000), rng)
 	fn := samplePaths(funcPaths(tier, rng), tierN(tier, 250, 3000), rng)
 	fl := samplePaths(filterPaths(tier, rng), tierN(tier, 100, 2000), rng)
-	return dedupPaths(append(append(append(one2, three...), fn...), fl...))
+	return dedupPaths(append(append(append(append(one2, three...), fn...), fl...), nestedFilterPaths()...))
 }
 
 func init() {
@@ -254,6 +254,9 @@ func init() {
 			rng := rand.New(rand.NewSource(seed + 13))
 			var jobs []*engine.Job
 			for i, p := range accPaths(tier, rng) {
+				if i%2 == 0 && p.Depth < 3 {
+					p.Depth++ // the selected locations may hold containers themselves
+				}
 				jobs = append(jobs, relJob(fmt.Sprintf("c13-%d", i), "zzH_C13", map[string]string{"path": p.Text, "ast": p.Ast, "holes": p.Holes}, p, tier))
 			}
 			return jobs
